@@ -3,6 +3,7 @@
 # False-alarm sweep: applies bin/refactor's mechanical, behaviour-preserving transformations, one site
 # per scratch copy of /repo, and runs every check on the copy. Prints one line per copy that does not
 # build (a defect of the tool, not counted) or on which a check alarms, then a summary.
+# A site line `combo N SEED` applies N randomly chosen rewrites in a row (COMBO=<count> generates <count> such lines with N=3).
 # TEST=1 also runs the repository's test suite on each copy (validates the tool itself).
 set -u
 export GOFLAGS=-mod=mod GOPROXY=off GOSUMDB=off GOTOOLCHAIN=local; unset GOWORK
@@ -13,7 +14,8 @@ BIN=$(mktemp /tmp/connectlint.XXXXXX); cp /verif/bin/connectlint "$BIN"; chmod +
 OUT=$(mktemp -d /tmp/rfsweep.XXXXXX)
 export GOCACHE="$OUT/gocache"   # TEST=1 compiles every copy: keep that out of the user's cache
 trap 'rm -rf "$BIN" "$OUT"' EXIT
-if [ -n "${SITES:-}" ]; then cp "$SITES" "$OUT/sites"; else
+if [ -n "${COMBO:-}" ]; then for i in $(seq 1 "$COMBO"); do echo "combo ${COMBO_N:-3} $(( ${SEED:-1} * 100000 + i ))"; done > "$OUT/sites"
+elif [ -n "${SITES:-}" ]; then cp "$SITES" "$OUT/sites"; else
 /verif/bin/refactor -repo /repo -list | { [ -n "$K" ] && grep "^$K " || cat; } \
   | python3 -c "import sys,random; l=sys.stdin.read().splitlines(); random.Random(int('${SEED:-1}')).shuffle(l); print('\n'.join(l[:$N]))" > "$OUT/sites"
 fi
@@ -21,7 +23,20 @@ one() {
   kind=$1 file=$2 idx=$3
   tmp=$(mktemp -d /tmp/verif-rf.XXXXXX)
   rsync -a --exclude .git /repo/ "$tmp/"
-  if ! /verif/bin/refactor -repo "$tmp" -kind "$kind" -file "$file" -n "$idx" 2>"$tmp/.err"; then echo "TOOL-FAILED $kind $file $idx $(head -1 "$tmp/.err")"; rm -rf "$tmp"; return; fi
+  if [ "$kind" = combo ]; then
+    # "combo N SEED": N rewrites in a row, each chosen by the seed among the sites of the tree as it then
+    # is; a rewrite after which the tree no longer builds is undone
+    applied=""
+    for step in $(seq 1 "$file"); do
+      pick=$(/verif/bin/refactor -repo "$tmp" -list 2>/dev/null | grep -vE "^(${COMBO_SKIP:-add-param|edit-msg}) " | python3 -c "import sys,random; l=sys.stdin.read().splitlines(); print(random.Random($idx*31+$step).choice(l) if l else '')")
+      [ -n "$pick" ] || continue
+      set -- $pick
+      rm -rf "$tmp.bak"; cp -a "$tmp" "$tmp.bak"
+      if /verif/bin/refactor -repo "$tmp" -kind "$1" -file "$2" -n "$3" 2>/dev/null && /verif/bin/refactor -repo "$tmp" -list >/dev/null 2>&1; then applied="$applied$1:$2:$3,"; else rm -rf "$tmp"; mv "$tmp.bak" "$tmp"; fi
+      rm -rf "$tmp.bak"
+    done
+    file="$file"; idx="$idx[$applied]"
+  elif ! /verif/bin/refactor -repo "$tmp" -kind "$kind" -file "$file" -n "$idx" 2>"$tmp/.err"; then echo "TOOL-FAILED $kind $file $idx $(head -1 "$tmp/.err")"; rm -rf "$tmp"; return; fi
   if [ "${TEST:-0}" = 1 ]; then
     (cd "$tmp" && go test -vet=off -count=1 ./... 2>&1 | grep -E "^(FAIL|---)" | head -3) | grep . | sed "s#^#TEST-FAILED $kind $file $idx #"
   fi
